@@ -183,6 +183,7 @@ VALIDATE_DEFS = {
 def validate_table(ctx: Ctx, rule: str) -> None:
     fref = f"{N_}.validate"
     fn = ctx.repo.func(fref)
+    ctx.require_locals(fref, list(VALIDATE_DEFS) + ["object_params", "param_net_name", "attr_net_name"])
     ctx.touch(fref)
     rows = []
     for node in ast.walk(fn.node):
@@ -305,6 +306,7 @@ def dependency_lookup(ctx: Ctx, rule: str) -> None:
 # ---------------------------------------------------------------------- C07.1 / C07.2 dependency provenance
 def dependency_provenance(ctx: Ctx, rule: str) -> None:
     fn = ctx.repo.func(GAPC)
+    ctx.require_locals(GAPC, ["object_params", "setup_restr", "setup_prefix", "setup_obj_restr", "setup_net_restr", "setup_dict", "filtered_parents", "unique_new_node"])
     ctx.touch(GAPC)
     params = fn.params()
     nodep, objp = params[1], params[2]
@@ -370,6 +372,7 @@ def dependency_provenance(ctx: Ctx, rule: str) -> None:
 # ---------------------------------------------------------------------- C07.3 / C07.5 edges from resolved parents
 def branch_edges(ctx: Ctx, rule: str) -> None:
     fn = ctx.repo.func(PB)
+    ctx.require_locals(PB, ["more_parents", "get_parents", "parse_parents", "children", "parents"])
     comp_loop = the_loop(ctx, PB, ast.For, lambda l: ast.unparse(l.iter).endswith(".objects") and any(
         call_name(c) == "get_and_parse_nodes_from_composite_node_and_object" for c in calls_in(l)), "component loop")
     comp = comp_loop.target.id
@@ -422,6 +425,7 @@ def branch_edges(ctx: Ctx, rule: str) -> None:
 # ---------------------------------------------------------------------- C07.4 cloning
 def cloning(ctx: Ctx, rule: str) -> None:
     fn = ctx.repo.func(PCB)
+    ctx.require_locals(PCB, ["clones", "child", "parent_state", "child_state", "state_suffixes", "clone_source", "parents", "parent_source", "to_clone", "old_clones"])
     params = fn.params()
     objp = params[2]
     loop = the_loop(ctx, PCB, ast.For, lambda l: ast.unparse(l.iter) == "enumerate(parents)", "loop over the producing parents")
